@@ -60,6 +60,14 @@ fn escape_help(help: &builder::StyledStr) -> String {
     escape_string(&help.to_string().replace('\n', " "), false)
 }
 
+// Escape string inside double quotes
+fn escape_double_quoted(string: &str) -> String {
+    string
+        .replace('\\', "\\\\")
+        .replace('"', "\\\"")
+        .replace('$', "\\$")
+}
+
 fn escape_name(name: &str) -> String {
     name.replace('-', "_")
 }
@@ -285,10 +293,11 @@ fn value_completion(option: &Arg) -> String {
                 } else {
                     // The help text after \t is wrapped in '' to make sure that the it is taken literally
                     // and there is no command substitution or variable expansion resulting in unexpected errors
+                    // (the whole list is itself inside double quotes)
                     Some(format!(
                         "{}\\t'{}'",
                         escape_string(value.get_name(), true).as_str(),
-                        escape_help(value.get_help().unwrap_or_default())
+                        escape_double_quoted(&escape_help(value.get_help().unwrap_or_default()))
                     ))
                 })
                 .collect::<Vec<_>>()
